@@ -22,11 +22,11 @@ from harness import env, fixtures, render, world
 from harness.common import Raw, cq, cq_opt
 
 PID = "C11"
-PARALLEL = 8
+PARALLEL = 6
 IMPORTS = "From Verif Require Import C11.Model C11.Spec C11.Corr."
 CASE_TYPE = "C11.Corr.case"
 RUNNER = "C11.Corr.run"
-FINDING_CLASSES = {1: "C11-F1", 2: "C11-F2", 3: "C11-F3", 4: "C11-F4", 5: "C11-F5"}
+FINDING_CLASSES = {1: "C11-F1", 2: "C11-F2", 3: "C11-F3", 4: "C11-F4", 5: "C11-F5", 6: "C11-F6"}
 RULE = (
     "histories over random EntityDescriptor/EntitiesDescriptor documents (1-6 entities from a pool of 3 ids so that "
     "ids repeat, 1-3 role descriptors of the 5 role kinds, protocolSupportEnumeration in {2.0, 1.1, 1.1+2.0, x+2.0, "
@@ -35,9 +35,11 @@ RULE = (
     "RequestedAttributes) spread over 1-3 sources of kinds inline / local file / MetaDataExtern (stub http) / MDQ (stub "
     "requests); complete product source kind x configuration style x signature state {unsigned, valid, tampered(2 ways), "
     "wrong key} x cert configured x node_name x document shape; reload histories in which the k-th of n<=3 elements "
-    "fails for every k and every failure kind {missing, malformed, wrong root, bad signature, http error, expired "
-    "group}; MDQ histories with ticks across the freshness period and refresh failures.  After EVERY step the whole "
-    "query set is compared.  non-trivial = distinct (tag, kinds of sources, outcome flags, multiset of answer shapes)")
+    "fails for every k and every failure kind {missing, malformed, wrong root, http error (status 500 WITH a usable body), "
+    "bad signature, wrong key, expired group, unsigned}; MDQ histories with ticks across the freshness period and refresh "
+    "failures; the witness / non-vacuity histories of C11/Facts.v.  After EVERY step the whole query set (27 lookups per "
+    "entity of the universe + keys() + with_descriptor() for 6 kinds) is compared.  non-trivial = distinct (tag, kinds of "
+    "sources, outcome flags, multiset of answer shapes)")
 TRUSTED = ["xmlsec1 stand-in (harness/standin/xmlsec1.py)", "metadata renderer and answer abstraction in harness/c11.py",
            "stub http / requests objects (status_code, content)"]
 ASSUMPTIONS = [
@@ -50,7 +52,11 @@ ASSUMPTIONS = [
     "protocolSupportEnumeration; a list-style imp() item names one source",
     "MetaDataMD (json dump) and MetaDataLoader sources are outside the quantifier (MetaDataLoader cannot be "
     "constructed at all: SAMLError 'No file specified')",
-    "signature verification is the stand-in's; its result enters the model as data (signature state of the case)"]
+    "signature verification is the stand-in's; its result enters the model as data (signature state of the case)",
+    "load('inline', text) and load('local', file) have no certificate parameter: a certificate counts as configured only "
+    "where the API accepts one (list-style items, remote, mdq)",
+    "the finding class of a failing history is that of its FIRST failing position (heuristic attribution, Spec.query_class); "
+    "detection does not depend on it: any deviation from the model is reported"]
 
 T0 = 1700000000
 R, P, S = world.BINDING_HTTP_REDIRECT, world.BINDING_HTTP_POST, world.BINDING_SOAP
@@ -171,6 +177,14 @@ def body_of(fetch):
         else:
             xml = xml.replace(' ID="doc1"', ' ID="doc1" cacheDuration="PT1H"', 1)   # signed content altered
     return xml
+
+
+def error_body(eid):
+    """What an error response (status 500) carries: a perfectly usable document.  It must not be looked at."""
+    e = {"id": eid, "vu": None, "affil": False, "attrs": [], "regs": [],
+         "roles": [{"kind": K_IDP, "protos": [SAML2P], "svcs": [[N_SSO, R, "https://error.example.org/sso", None]],
+                    "keys": [], "acs": []}]}
+    return r_ent(e, "doc1")
 
 
 # ------------------------------------------------------------------------------------ stubs
@@ -379,7 +393,8 @@ class _Run:
             return path
         if kind == "remote":
             url = "http://md.example.org/" + src["key"]
-            self.http.table[url] = _Resp(200, body) if body is not None else _Resp(500 if fetch["st"] == "http" else 404, "")
+            self.http.table[url] = _Resp(200, body) if body is not None else (
+                _Resp(500, error_body("urn:e1")) if fetch["st"] == "http" else _Resp(404, ""))
             return url
         url = "http://mdq.example.org/" + src["key"]
         self.mdq_urls.add(url)
@@ -392,7 +407,8 @@ class _Run:
             for eid, fetch in self.server.items():
                 body = body_of(fetch)
                 u = "%s/entities/%s" % (url, self.M.MetaDataMDX.sha1_entity_transform(eid))
-                self.req.table[u] = _Resp(200, body) if body is not None else _Resp(500 if fetch["st"] == "http" else 404, "")
+                self.req.table[u] = _Resp(200, body) if body is not None else (
+                    _Resp(500, error_body(eid)) if fetch["st"] == "http" else _Resp(404, ""))
 
     def old_val(self, src, name):
         kind = src["kind"]
@@ -606,6 +622,10 @@ def c_answer(a):
     raise ValueError(a)
 
 
+SHORT = {_json.dumps(k): v for k, v in [(["U"], "oU"), (["K"], "oK"), (["X"], "oX"), (["N"], "oN"), (["R"], "oR"),
+                                          (["T", []], "oT0"), (["G", None, None, []], "oG0")]}
+
+
 def fix_src(step):
     """inline sources named by a list-style item are keyed by their text"""
     def fx(src, fetch):
@@ -628,11 +648,16 @@ def coq_case(case, obs):
         terms = []
         for i, a in enumerate(qs):
             if prev is not None and i < len(prev) and prev[i] == a:
-                terms.append("None")          # same answer as after the previous step
+                t = "oS"          # same answer as after the previous step
             else:
-                terms.append("(Some %s)" % c_answer(a))
+                t = SHORT.get(_json.dumps(a)) or "(Some %s)" % c_answer(a)
+            if terms and terms[-1][1] == t:
+                terms[-1][0] += 1
+            else:
+                terms.append([1, t])
         prev = qs
-        steps.append("(%s, %s, %s)" % (c_op(fix_src(step)), clist(c_answer(a) for a in flag), clist(terms)))
+        steps.append("(%s, %s, %s)" % (c_op(fix_src(step)), clist(c_answer(a) for a in flag),
+                                       clist("(%d, %s)" % (n, t) for n, t in terms)))
     return "(%s, %s, %s)" % (cq(int(case["t0"])), clist(cs(e) for e in case["universe"]), clist(steps))
 
 
@@ -794,8 +819,8 @@ def fam_sig(t0=T0):
     confs = [("file", True, None), ("file", False, None), ("remote", True, None), ("remote", False, None),
              ("remote", False, True), ("remote", False, False), ("inline", False, None), ("inline", True, None)]
     for (kind, ns, node), (sig, tamper), cert, group in itertools.product(confs, sigs, (False, True), (False, True)):
-        if kind == "inline" and cert:
-            continue
+        if kind == "inline" and cert and not ns:
+            continue          # load("inline", text) has no certificate parameter
         d = g_doc(rng, t0, group=group, n=2, invalid_ok=False)
         d["vu"] = None
         src = g_src(rng, kind, "s1", cert=cert, node=node)
@@ -885,15 +910,67 @@ def fam_mdq(rng, n, t0=T0):
     return out
 
 
+def _idp_ent(eid, loc, binding):
+    return {"id": eid, "vu": None, "affil": False, "attrs": [], "regs": [],
+            "roles": [{"kind": K_IDP, "protos": [SAML2P], "svcs": [[N_SSO, binding, loc, None]],
+                       "keys": [["signing", "idp"]], "acs": []}]}
+
+
+def _single(e, sig="unsigned", tamper=0):
+    return doc_fetch({"group": False, "vu": None, "ents": [e]}, sig, tamper)
+
+
+def fam_witness(t0=T0):
+    """The histories of C11/Facts.v (witness1..6: one per finding class; good_history: the non-vacuity example),
+    run on the real store."""
+    rng = None
+    a = _idp_ent("urn:e1", "https://a.example.org/sso", R)
+    b = _idp_ent("urn:e1", "https://b.example.org/sso", P)
+    inl = lambda: g_src(rng, "inline", "s1")
+    mdq = lambda cert: load(g_src(rng, "mdq", "q1", cert=cert, period=3600), {"st": "missing"}, False, "load")
+    uni = ["urn:e1", "urn:e2", "urn:e3", "urn:e4"]
+    two = [load(inl(), _single(a)), load(inl(), _single(b))]
+    out = [
+        mk("witness", two, t0, uni),                                                             # 1, 2
+        mk("witness", [load(g_src(rng, "remote", "s1", cert=True), _single(a))], t0, uni),       # 3
+        mk("witness", [{"op": "server", "tbl": [["urn:e1", _single(a, "tampered")]]}, mdq(True)], t0, uni),   # 4
+        mk("witness", [{"op": "server", "tbl": [["urn:e1", {"st": "garbage"}]]}, mdq(False), load(inl(), _single(a))], t0, uni),  # 5
+        mk("witness", [load(g_src(rng, "inline", "s1", cert=True), _single(a, "tampered"), True, "imp")], t0, uni),   # 6
+    ]
+    inel = {"id": "urn:e1", "vu": None, "affil": False, "attrs": [], "regs": [],
+            "roles": [{"kind": K_IDP, "protos": [SAML11P], "svcs": [[N_SSO, R, "https://old.example.org/sso", None]],
+                       "keys": [], "acs": []}]}
+    out.append(mk("witness", [                                                                     # 4b
+        {"op": "server", "tbl": [["urn:e1", _single(inel, "valid")]]}, mdq(True),
+        {"op": "server", "tbl": [["urn:e2", _single(_idp_ent("urn:e1", "https://evil.example.org/sso", R), "tampered")]]},
+        {"op": "tick", "dt": 10}], t0, ["urn:e1", "urn:e2"]))
+    sp = {"id": "urn:e2", "vu": t0 + 100000, "affil": False,
+          "attrs": [[ENTITY_CATEGORY, ["http://cat.example.org/1"]]],
+          "regs": [{"auth": "http://ra1.example.org", "inst": None, "pols": [["en", "http://ra.example.org/pol1"]]}],
+          "roles": [{"kind": K_SP, "protos": [SAML11P, SAML2P], "svcs": [[N_ACS, P, "https://sp.example.org/acs", "0"]],
+                     "keys": [[None, "sp"]], "acs": [["1", [["mail", "true"], ["cn", None]]]]},
+                    {"kind": K_SP, "protos": [SAML11P], "svcs": [[N_ACS, P, "https://sp.example.org/acs11", "0"]],
+                     "keys": [], "acs": []}]}
+    grp = doc_fetch({"group": True, "vu": None, "ents": [sp, _idp_ent("urn:e3", "https://c.example.org/sso", R)]})
+    e4 = _idp_ent("urn:e4", "https://d.example.org/sso", R)
+    out.append(mk("witness", [
+        load(inl(), _single(a)), load(g_src(rng, "file", "s2"), grp),
+        reload_([(g_src(rng, "remote", "s1", cert=True), _single(a, "tampered"))]),
+        {"op": "server", "tbl": [["urn:e4", _single(e4, "valid")]]}, mdq(True),
+        {"op": "tick", "dt": 3601}, {"op": "server", "tbl": []}], t0, uni))
+    return out
+
+
 def generate(ctx):
     rng = ctx.rng
     big = ctx.thorough
     cases = []
+    cases += fam_witness()
     cases += fam_sig()
-    cases += fam_doc(rng, 1500 if big else 300)
-    cases += fam_multi(rng, 1200 if big else 250)
+    cases += fam_doc(rng, 1500 if big else 250)
+    cases += fam_multi(rng, 1200 if big else 200)
     cases += fam_fail(rng, reps=4 if big else 1)
-    cases += fam_mdq(rng, 1200 if big else 250)
+    cases += fam_mdq(rng, 1200 if big else 220)
     rng.shuffle(cases)            # balances the Coq shards
     return cases
 
